@@ -1,6 +1,6 @@
 """C07 - filter_args binds parameters exactly as Python does.
 
-Oracle: inspect.Signature.bind(...).apply_defaults() on the same real function.
+Oracle: the interpreter itself - the generated function is really called and reports its locals().
 Exhaustive over all grammatical signatures with <= 5 (quick) / 6 (thorough)
 parameters and all call shapes; calls Python rejects are outside the domain.
 """
@@ -15,12 +15,12 @@ LEVEL = "exploration"
 RULE = ("every grammatical signature over {pos-only, pos-or-kw, *args, kw-only, **kw} x "
         "{default, no default} (defaults truthy tuples, and None / 0 / '' / [] / False / () / 0.0 / {}) with <= 5 (quick) / 6 (thorough) parameters, as plain functions and as "
         "bound methods, times every call shape (0..n+2 positionals, every subset of nameable "
-        "parameters by keyword, 0-2 surplus keywords sorting before / after the parameter names, a keyword repeating a positional-only name, methods also called with the bound instance itself as an argument); "
-        "a case is one (signature, call shape, ignore list) that Python's Signature.bind accepts; "
+        "parameters by keyword, 0-2 surplus keywords sorting before / after the parameter names, keywords repeating positional-only names (first, last, both; 'self' for methods incl. 'def f(self, /, ...)'), methods also called with the bound instance itself as an argument); "
+        "a case is one (signature, call shape, ignore list) that the interpreter accepts; "
         "distinct_nontrivial counts distinct (signature, call shape) pairs accepted by Python with "
         "at least one argument or default bound")
 ASSUMPTIONS = [
-    "inspect.Signature.bind + apply_defaults is the definition of 'as Python binds'",
+    "what the real call of the same function binds (its locals()) is the definition of 'as Python binds'; a call raising TypeError is outside the domain",
     "functions are real defs compiled from generated source (exec), not mocks",
     "parameter values are distinct typed tuples, so any swap or misplacement changes the dict",
 ]
@@ -40,6 +40,9 @@ def cases(tier, seed):
             chunk.append(dict(sig=[list(s) for s in sig], method=method, dstyle=0))
             if any(x[2] for x in sig):
                 chunk.append(dict(sig=[list(s) for s in sig], method=method, dstyle=1))
+            if method and not any(x[0] == "P" for x in sig):
+                # 'def f(self, /, ...)': self positional-only although the method has no positional-only parameter of its own
+                chunk.append(dict(sig=[list(s) for s in sig], method=True, dstyle=0, self_slash=True))
             if len(chunk) >= 8:
                 yield dict(group=chunk)
                 chunk = []
@@ -49,8 +52,8 @@ def cases(tier, seed):
     yield dict(contract=True)
 
 
-def build(sig, method, dstyle=0):
-    src = gen_sig.source(sig, "f", method=method, dstyle=dstyle)
+def build(sig, method, dstyle=0, self_slash=False):
+    src = gen_sig.source(sig, "f", method=method, dstyle=dstyle, body=gen_sig.LOCALS_BODY, self_slash=self_slash)
     ns = {}
     if method:
         exec("class C:\n" + src, ns)
@@ -93,7 +96,7 @@ def run_case(case, ctx):
 def run_one(case, ctx, filter_args):
     sig = tuple(tuple(s) for s in case["sig"])
     method = case["method"]
-    func, obj = build(sig, method, case.get("dstyle", 0))
+    func, obj = build(sig, method, case.get("dstyle", 0), case.get("self_slash", False))
     names = [s[1] for s in sig if s[0] in "PKO"]
     keys = names + (["*"] if any(s[0] == "V" for s in sig) else []) + \
         (["**"] if any(s[0] == "W" for s in sig) else [])
@@ -102,8 +105,8 @@ def run_one(case, ctx, filter_args):
     ign_lists = [()] + [c for r in (1, 2) for c in itertools.combinations(keys, r)]
     ign_i = 0
     reported = set()
-    sstr = ("method " if method else "") + gen_sig.sig_str(sig)
-    for npos, kwnames in gen_sig.call_shapes(sig):
+    sstr = ("method " if method else "") + ("(self, /) " if case.get("self_slash") else "") + gen_sig.sig_str(sig)
+    for npos, kwnames in gen_sig.call_shapes(sig, method=method):
         args, kwargs = gen_sig.values_for(npos, kwnames)
         if method and npos and (npos + len(kwnames)) % 3 == 0:
             # value-dependent corner: the instance the method is bound to is itself passed as an argument
@@ -120,7 +123,9 @@ def run_one(case, ctx, filter_args):
         if method:
             ctx.count("method_calls")
         if args or kwargs or exp:
-            ctx.sig((case["sig"], method, case.get("dstyle", 0), npos, kwnames))
+            ctx.sig((case["sig"], method, case.get("dstyle", 0), case.get("self_slash", False), npos, kwnames))
+        if any(k in kwargs for k in [x[1] for x in sig if x[0] == "P"] + ["self"]):
+            ctx.count("accepted_calls_with_a_keyword_named_like_a_positional_only_parameter")
         if case.get("dstyle"):
             ctx.count("calls_with_falsy_or_mutable_defaults")
         # 1) no ignore list; 2) one rotating ignore list
